@@ -301,6 +301,10 @@ def build_frozen(timeout=1800):
     env = rust_env()
     env["CARGO_TARGET_DIR"] = os.path.join(CACHE, "target-frozen")
     rc, o, e = sh(["cargo", "build", "--offline"], cwd=os.path.join(VERIF, "harness_frozen"), timeout=timeout, env=env)
+    if rc == 0:
+        # the pinned release's own rustfmt binary (C09: how the style edition is chosen goes through main.rs and config loading)
+        rc, o2, e2 = sh(["cargo", "build", "--offline", "--bin", "rustfmt"], cwd=os.path.join(VERIF, "frozen"), timeout=timeout, env=env)
+        o, e = o + o2, e + e2
     return rc == 0, (o + e)[-3000:], time.time() - t0
 
 
